@@ -28,6 +28,16 @@ pub fn cuts(s: &str, n: usize) -> Vec<usize> {
 pub fn sb(f: &[&str], cat: bool) -> String {
     let data = unhex(f[0]);
     let ps: Vec<(usize, Vec<u8>)> = strip_bytes(&data).map(|p| (off(&data, p), p.to_vec())).collect();
+    // the provided Iterator methods agree with stepping through next()
+    assert_eq!(strip_bytes(&data).count(), ps.len(), "count()");
+    assert_eq!(strip_bytes(&data).last().map(|p| p.to_vec()), ps.last().map(|x| x.1.clone()), "last()");
+    assert_eq!(strip_bytes(&data).nth(1).map(|p| p.to_vec()), ps.get(1).map(|x| x.1.clone()), "nth(1)");
+    {
+        let mut st = StripBytes::new();
+        assert_eq!(st.strip_next(&data).count(), ps.len(), "StripBytesIter::count()");
+        let mut st = StripBytes::new();
+        assert_eq!(st.strip_next(&data).last().map(|p| p.to_vec()), ps.last().map(|x| x.1.clone()), "StripBytesIter::last()");
+    }
     if cat {
         let all: Vec<u8> = ps.iter().flat_map(|(_, p)| p.clone()).collect();
         // into_vec must agree with the iterator
@@ -49,6 +59,13 @@ pub fn ss(f: &[&str], cat: bool) -> String {
             (off(&data, p.as_bytes()), p.as_bytes().to_vec())
         })
         .collect();
+    assert_eq!(strip_str(text).count(), ps.len(), "count()");
+    assert_eq!(strip_str(text).last().map(|p| p.as_bytes().to_vec()), ps.last().map(|x| x.1.clone()), "last()");
+    assert_eq!(strip_str(text).nth(1).map(|p| p.as_bytes().to_vec()), ps.get(1).map(|x| x.1.clone()), "nth(1)");
+    {
+        let mut st = StripStr::new();
+        assert_eq!(st.strip_next(text).count(), ps.len(), "StripStrIter::count()");
+    }
     if cat {
         let all: Vec<u8> = ps.iter().flat_map(|(_, p)| p.clone()).collect();
         assert_eq!(all, strip_str(text).to_string().into_bytes());
